@@ -140,18 +140,27 @@ linearizer are proper and the source has no non-finite literal, EVERY domain ent
 source variables and `$` auxiliaries (`$abs_k : NonNegativeReal(0, max(−lo, hi))`, `$min_k / $max_k : Real(lo, hi)`
 with the derived range of the retained operands, Booleans) — is proper: no NaN end, no `Real(+inf, _)`,
 no `Real(_, −inf)`, `NonNegativeReal` lower ends finite and non-negative. -/
-theorem domain_proper {m : Model (Ext K)} {b : BoundsMap (Ext K)} {d : List (DomVar (Ext K))}
-    {lm : LinModel (Ext K)} (hfin : FiniteLits m = true) (hb : BoundsProper b) (hd : DomainProper d)
-    (h : linearizeWith m b d = .ok lm) : DomainProper lm.domain := by
-  let _ : BCfg (Ext K) := ⟨true⟩
+theorem domain_good [BCfg (Ext K)] (htr : BCfg.track (Ext K) = true) (hex : ExAx (α := Ext K) fin?)
+    {m : Model (Ext K)} {b : BoundsMap (Ext K)} {d : List (DomVar (Ext K))}
+    {lm : LinModel (Ext K)} (hfin : FiniteLits m = true) (hb : ∀ x, BPx fin? (varBounds b x))
+    (hd : ∀ v ∈ d, TPx fin? v.ty) (h : linearizeWith m b d = .ok lm) : ∀ v ∈ lm.domain, TPx fin? v.ty := by
   have hp := closed_isFinite K
   have hfin' := hfin
   simp only [FiniteLits, Bool.and_eq_true] at hfin'
   obtain ⟨obj, s, _, hI, _, rfl⟩ :=
-    linearizeWith_run (N := fun _ => True) trivial hp (simpOK_of_closed hp) (fun _ => bax_isFinite) hfin'.1
+    linearizeWith_run (N := fun _ => True) trivial hp (simpOK_of_closed hp) (fun _ => ⟨bax_isFinite, hex⟩) hfin'.1
       ⟨stOK_init_of_finiteLits b d hfin, fun _ => ⟨hb, hd⟩⟩ h
   intro v hv
-  exact (hI.2 rfl).2 v (List.mem_filter.mp hv).1
+  exact (hI.2 htr).2 v (List.mem_filter.mp hv).1
+
+theorem domain_proper {m : Model (Ext K)} {b : BoundsMap (Ext K)} {d : List (DomVar (Ext K))}
+    {lm : LinModel (Ext K)} (hfin : FiniteLits m = true) (hb : BoundsProper b) (hd : DomainProper d)
+    (h : linearizeWith m b d = .ok lm) : DomainProper lm.domain := by
+  let _ : BCfg (Ext K) := { track := true }
+  have hex : ExAx (α := Ext K) fin? :=
+    ⟨fun _ _ _ => trivial, fun _ _ _ _ => trivial, trivial, fun _ _ _ => trivial, fun _ _ => trivial⟩
+  intro v hv
+  exact (domain_good rfl hex hfin (fun x => ⟨hb x, trivial⟩) (fun v hv => ⟨hd v hv, trivial⟩) h v hv).1
 
 /-- the same, unfolded into the three clauses downstream stages use. -/
 theorem domain_proper_clauses {d : List (DomVar (Ext K))} (h : DomainProper d) :
